@@ -41,8 +41,12 @@ restate C01_vm_refines_sld_call := vm_refines_sld_call
     — executed by the VM through the clauses of bootstrap.pl (`If -> Then ; _ :- If, !, Then.`,
     `_ -> _ ; Else :- !, Else.`, `If -> Then :- If, !, Then.`), by the reference as a branch with a
     cut local to the construct; `once(G)` (VM: `once(P) :- P, !.`; reference: `(call(G) -> true)`,
-    i.e. with calls `call(call(G))`, `call(true)` the VM does not make).
-    Side condition `CallsOK` as for `call/1`. -/
+    i.e. with calls `call(call(G))`, `call(true)` the VM does not make); `\\+ G` (VM: the thunk
+    `negate` calls `G` in a trampoline of its own — `force` on an empty stack, related to the
+    recursive search by `force_dfsG_conv` and `vm_nested_well_scoped` —, reference:
+    `(call(G) -> fail ; true)`).
+    Side condition `CallsOK` as for `call/1` (for `\\+ G` also on the goal `G` and, recursively, on
+    the nested search). -/
 restate C01_vm_refines_sld_ctl := vm_refines_sld_ctl
 
 end PrologVerif.C01
